@@ -27,6 +27,10 @@ TUS = ["src/dataset.cpp", "src/datasource.cpp", "src/generator.cpp", "src/genera
 CARDINALITY = {"samples", "features", "columns", "classes", "size", "rows", "cols"}
 
 
+# guards that are the gate of the caller-supplied indices (both ends are required there even when the lower-end test has vanished altogether)
+BOTH_ENDS = {"nano::dataset_t::check"}
+
+
 def disjuncts(n):
     n = skip(n)
     if n["k"] == "bin" and n["op"] == "||":
@@ -47,12 +51,22 @@ def is_zero(n):
 
 def rule_range_guards(F, R, fns):
     n = 0
+
+    def peel(x):
+        x = skip(x)
+        while x is not None and x["k"] in ("cast", "paren") and x.get("c"):
+            x = skip(x["c"][0])
+        return x
+
+    def unsigned_cast(x):
+        x = skip(x)
+        while x is not None and x["k"] in ("paren",) and x.get("c"):
+            x = skip(x["c"][0])
+        return x is not None and x["k"] == "cast" and "unsigned" in (x.get("t") or "")
     for f in fns:
         for c in f.calls(lambda x: callee(x) == "nano::critical"):
             ds = disjuncts(args(c)[0])
             lows = [d for d in ds if d["k"] == "bin" and ((d["op"] == "<" and is_zero(d["c"][1])) or (d["op"] == ">" and is_zero(d["c"][0])))]
-            if not lows:
-                continue
             for d in ds:
                 if d["k"] != "bin" or d["op"] not in ("<", ">", "<=", ">="):
                     continue
@@ -65,11 +79,33 @@ def rule_range_guards(F, R, fns):
                     continue
                 if op not in (">", ">="):
                     continue
+                pi = peel(idx)
+                if pi is None or literal_value(pi) is not None:
+                    continue
+                if not lows and not (pi["k"] == "ref" or (pi["k"] == "call" and callee(pi).split("::")[-1] in ("max", "maxCoeff"))):
+                    continue            # not an index guard (a size comparison)
                 n += 1
                 inst = "%s guard@%s" % (f.qn, f.loc(d))
                 R.check(op == ">=", "R-C08-1", inst, f.loc(d),
                         "an index equal to the count is rejected: %s" % pp(d),
                         "range guard `%s` accepts an index equal to %s (valid indices are 0..count-1): out-of-range element is read" % (pp(d), pp(card)))
+                # the lower end: `index < 0` for the same index (`X.min() < 0` next to `X.max() >= n`); a single comparison in an unsigned type covers
+                # both ends for one index, but not for the maximum of a list (a negative element hides behind any non-negative one)
+                aggregate = pi["k"] == "call" and callee(pi).split("::")[-1] in ("max", "maxCoeff")
+                low_ok = False
+                for l in lows:
+                    li = peel(l["c"][0] if l["op"] == "<" else l["c"][1])
+                    if aggregate:
+                        low_ok = low_ok or (li["k"] == "call" and callee(li).split("::")[-1] in ("min", "minCoeff") and pp(obj(li)) == pp(obj(pi)))
+                    else:
+                        low_ok = low_ok or pp(li) == pp(pi)
+                if not low_ok and not aggregate and unsigned_cast(idx) and unsigned_cast(card):
+                    low_ok = True
+                if not lows and f.qn not in BOTH_ENDS:
+                    continue        # a capacity test on an internal running counter, not a guard on a caller-supplied index
+                R.check(low_ok, "R-C08-1", inst + " lower end", f.loc(d), "negative indices are rejected as well",
+                        "the guard `%s` does not reject negative indices%s: storage and mask are then read before their first element" % (
+                            pp(args(c)[0])[:90], " (comparing the *maximum* of the list as an unsigned value hides a negative element behind any non-negative one)" if aggregate else ""))
     R.floor("R-C08-1", n, 3, "index range guards")
 
 
